@@ -134,6 +134,18 @@ func appendFlags(w io.Writer, forBuildHash bool) {
 	if flagTiny {
 		io.WriteString(w, " -tiny")
 	}
+	if flagLiterals && forBuildHash {
+		// With -literals, the values injected via -ldflags=-X change how the
+		// targeted packages are obfuscated at compile time, yet cmd/go only
+		// re-links when -ldflags changes. Make them part of the build hash,
+		// so that a cached package compiled for another value is not reused.
+		if ldflags, err := cmdgoQuotedSplit(flagValue(sharedCache.ForwardBuildFlags, "-ldflags")); err == nil {
+			for val := range flagValues(ldflags, "-X") {
+				io.WriteString(w, " -X=")
+				io.WriteString(w, val)
+			}
+		}
+	}
 	if flagDebug && !forBuildHash {
 		// -debug doesn't affect the build result at all,
 		// so don't give it separate entries in the build cache.
